@@ -112,14 +112,16 @@ def ref_encode(ref: refodx.Ref, msg: J, values: Dict[str, Any],
         return "skip", str(e)
 
 
-def ref_decode(ref: refodx.Ref, msg: J, pdu: bytes,
-               request: Optional[bytes] = None) -> Tuple[str, Any]:
+def ref_decode(ref: refodx.Ref, msg: J, pdu: bytes, request: Optional[bytes] = None,
+               request_const_len: Optional[int] = None) -> Tuple[str, Any]:
     """-> ("ok", (values, end)) | ("short"|"mismatch"|"invalid"|"skip", text)"""
     try:
-        return "ok", ref.decode(msg, pdu, request)
+        return "ok", ref.decode(msg, pdu, request, request_const_len)
     except refodx.Short as e:
         return "short", str(e)
     except refodx.Mismatch as e:
+        if getattr(e, "nrc", False):
+            return "mismatch-nrc", str(e)
         return "mismatch-leading" if e.leading else "mismatch", str(e)
     except refodx.Invalid as e:
         return "invalid", str(e)
